@@ -8,6 +8,7 @@ import (
 	"os"
 	"time"
 
+	"github.com/plgd-dev/go-coap/v3/message"
 	"github.com/plgd-dev/go-coap/v3/message/pool"
 	"github.com/plgd-dev/go-coap/v3/net/blockwise"
 	tcpclient "github.com/plgd-dev/go-coap/v3/tcp/client"
@@ -42,13 +43,20 @@ func slowDownload(rec *vr.Rec, reps int, seed int64) {
 			bwTimeout = 25 * time.Millisecond
 		}
 		sweepAhead := []time.Duration{2 * bwTimeout, 10 * time.Second, 30 * time.Minute}[rnd.Intn(3)]
-		c := map[string]any{"scenario": "download-slower-than-blockwise-timeout", "transport": kind, "request_context": ctxKind, "block_size": bs, "body_bytes": size, "blocks": nblocks, "housekeeping_before_block": sweepBefore, "housekeeping_virtual_time_ahead": sweepAhead.String(), "blockwise_timeout": bwTimeout.String(), "peer_pauses_instead_of_housekeeping": pause}
+		// early size negotiation: the request itself carries Block2 (NUM 0, 1024 bytes); the peer answers in its own, smaller
+		// blocks. "The block I asked for" is then block 0 in units of 1024 - not every small block inside its first 1024 bytes.
+		explicit := (rep/8)%2 == 1
+		c := map[string]any{"scenario": "download-slower-than-blockwise-timeout", "transport": kind, "request_context": ctxKind, "block_size": bs, "body_bytes": size, "blocks": nblocks, "housekeeping_before_block": sweepBefore, "housekeeping_virtual_time_ahead": sweepAhead.String(), "blockwise_timeout": bwTimeout.String(), "peer_pauses_instead_of_housekeeping": pause, "request_carries_block2_num0_szx1024": explicit}
 		body := bodyOf(uint32(95000+rep), size)
 		var inject func(m ref.Msg)
 		var sent func() []ref.Msg
 		var get func(ctx context.Context) ([]byte, error)
 		var sweep func(now time.Time)
 		var closef func()
+		var getOpts []message.Option
+		if explicit {
+			getOpts = []message.Option{{ID: message.Block2, Value: []byte{6}}}
+		}
 		if kind == "udp" {
 			s := sim.NewMemSession()
 			cc := sim.NewUDPConn(s, sim.UDPOpts{Blockwise: true, SZX: blockwise.SZX(szx), BWTimeout: bwTimeout, Pool: pool.New(8, 2048), Errors: func(err error) {
@@ -67,7 +75,7 @@ func slowDownload(rec *vr.Rec, reps int, seed int64) {
 				return out
 			}
 			get = func(ctx context.Context) ([]byte, error) {
-				m, err := cc.Get(ctx, "/slowdl")
+				m, err := cc.Get(ctx, "/slowdl", getOpts...)
 				if err != nil {
 					return nil, err
 				}
@@ -94,7 +102,7 @@ func slowDownload(rec *vr.Rec, reps int, seed int64) {
 			inject = func(m ref.Msg) { sc.Feed(ref.EncodeTCP(m)) }
 			sent = func() []ref.Msg { ms, _ := ref.ParseTCPStream(sc.Written()); return ms }
 			get = func(ctx context.Context) ([]byte, error) {
-				m, err := cc.Get(ctx, "/slowdl")
+				m, err := cc.Get(ctx, "/slowdl", getOpts...)
 				if err != nil {
 					return nil, err
 				}
@@ -202,7 +210,7 @@ func slowDownload(rec *vr.Rec, reps int, seed int64) {
 			}
 		}
 		cancel()
-		rec.Eval(fmt.Sprintf("slow|%s|%s|%d|%d|%d|%s|%v", kind, ctxKind, bs, size, sweepBefore, sweepAhead, pause))
+		rec.Eval(fmt.Sprintf("slow|%s|%s|%d|%d|%d|%s|%v|%v", kind, ctxKind, bs, size, sweepBefore, sweepAhead, pause, explicit))
 		rec.Count("slow_downloads_"+ctxKind, 1)
 		if r.err == nil && !bytes.Equal(r.b, body) {
 			rec.Violation("C04/"+kind+"/slow-download/"+ctxKind+"/"+classify(r.b, body, false), fmt.Sprintf("the download outlived the block-wise transfer timeout (%s before block %d of %d was served); the caller then received %d of %d bytes as a complete response", map[bool]string{true: "the peer paused for 3 x the timeout", false: "housekeeping ran at a virtual time beyond it"}[pause], sweepBefore, nblocks, len(r.b), size), c)
